@@ -206,12 +206,21 @@ def parse_block(lang, text, var):
                     dims=dimlist(dims) if dims else None, fill='F')
         rest = text[m.end():]
         mc = re.match(rf'{v} = complex\(squeeze\({v}\(1((?:,:)*)\)\),squeeze\({v}\(2((?:,:)*)\)\)\); ?', rest)
-        if mc:
-            if mc.group(1) != mc.group(2) or spec['dims'] is None or spec['dims'][0] != 2 \
-                    or len(mc.group(1)) // 2 != len(spec['dims']) - 1 or nt not in ('float32', 'float64'):
+        mm = re.match(rf'{v} = complex\(matrix\({v}\(1((?:,:)*)\), ?\[{DIMS}\]\),matrix\({v}\(2((?:,:)*)\), ?\[{DIMS}\]\)\); ?', rest)
+        for m_, form in ((mc, 'squeeze'), (mm, 'matrix')):
+            if not m_:
+                continue
+            g = m_.groups()
+            colons1, colons2 = (g[0], g[1]) if form == 'squeeze' else (g[0], g[2])
+            if colons1 != colons2 or spec['dims'] is None or spec['dims'][0] != 2 \
+                    or len(colons1) // 2 != len(spec['dims']) - 1 or nt not in ('float32', 'float64'):
                 raise WrongDenotation('Scilab complex: leading dimension must be 2 and one ":" per remaining dimension')
-            spec['scilab_complex'] = True
-            rest = rest[mc.end():]
+            if form == 'matrix':
+                if g[1] != g[3] or dimlist(g[1]) != spec['dims'][1:]:
+                    raise WrongDenotation(f'Scilab complex: parts reshaped to {g[1]} / {g[3]}, remaining dimensions are {spec["dims"][1:]}')
+            spec['scilab_complex'] = form
+            rest = rest[m_.end():]
+            break
         return spec, rest
     if lang in ('julia_ver0', 'julia_ver1', 'julia'):
         m = re.match(rf'fileid = open\("{FILE}", ?"r"\); {v} = map\((\w+), ?(?:read\(fileid, ?([\w{{}}]+), ?\({DIMS},?\)\)'
@@ -247,7 +256,7 @@ def parse_block(lang, text, var):
                     count=None, dims=dims, fill='C'), text[m.end():]
     if lang == 'maple':
         m = re.match(rf'{v} := FileTools\[Binary\]\[Read\]\("{FILE}", ?(\w+\[\d\]), ?byteorder=(\w+), ?output=Array\); '
-                     rf'FileTools\[Binary\]\[Close\]\("{FILE}"\); (?:{v} := ArrayTools\[Reshape\]\({v}, ?\[{DIMS}\]\); )?', text)
+                     rf'FileTools\[Binary\]\[Close\]\("{FILE}"\); ?(?:{v} := ArrayTools\[Reshape\]\({v}, ?\[{DIMS}\]\); ?)?', text)
         if not m:
             raise Malformed('Maple block does not match FileTools[Binary][Read]/[Close]/[ArrayTools[Reshape]]')
         f, tok, e, f2, dims = m.groups()
@@ -295,7 +304,10 @@ def evaluate(spec, resolve):
         re_, im_ = out[0, ...], out[1, ...]
         ct = {'float32': 'complex64', 'float64': 'complex128'}[spec['numtype']]
         out = (re_.astype(ct) + 1j * im_.astype(ct)).astype(np.dtype(ct).newbyteorder(decoder.ORDERS[spec['bo']]))
-        out = np.squeeze(out) if out.ndim > 1 else out      # Scilab's squeeze() drops singleton dimensions
+        if spec['scilab_complex'] == 'squeeze' and out.ndim > 1:
+            out = np.squeeze(out)                            # Scilab's squeeze() drops every singleton dimension
+            if out.ndim == 0:
+                out = out.reshape(1)
     return out
 
 
@@ -423,7 +435,7 @@ def eval_accessor(acc, I, V, k, atom_rank):
         except IndexError:
             raise WrongDenotation(f'index expression out of the bounds of i {I.shape}')
 
-    if acc['nph'] != atom_rank:
+    if acc['iaxes'] != '(n,2)' and acc['nph'] != atom_rank:    # row-major Part[] needs no placeholders
         raise WrongDenotation(f'{acc["nph"]} leading placeholders for a values array with {atom_rank} atom dimensions')
     if 'guard' in acc and idx(acc['guard'][0]) == idx(acc['guard'][1]):
         return None                      # IDL: sa = []
